@@ -11,6 +11,8 @@ CONSTANTS
   WithProxyDel = FALSE
   CfiLayouts = {"none"}
   Isa = "x64"
+  WithScopes = FALSE
+  InsFns = {"none"}
   Emit = FALSE
 INVARIANT Inv
 CHECK_DEADLOCK FALSE
